@@ -1,7 +1,7 @@
 """Thorough tier, second half: liveness of the rules of one property.
 
 After the property was decided on the tree under test, every *recorded* breaking change of that property — the executable mutation corpus of
-tools/selftest.py, the independently seeded defects under seeded/ and the reverted `fix:` commits under regress/ that this property's check is recorded to catch — is applied to a scratch
+tools/selftest.py, the independently seeded defects under seeded/, the brainstormed mutants under mutants/<id>/ and the reverted `fix:` commits under regress/ that this property's check is recorded to catch — is applied to a scratch
 copy of the analysed sources (under a fresh temporary directory, removed afterwards) and the same rules are run on the copy.  A change is
 `killed` when the run reports a finding the unmodified tree does not have, `stale` when its anchor text / patch no longer applies to this tree, and
 `survived` otherwise.  The result goes into the evidence file (coverage.selfcheck) and one SELFCHECK line; it never changes the verdict about
@@ -52,6 +52,17 @@ def mutants_for(pid):
             if not os.path.exists(patch):
                 patch = os.path.join(sd, sid, 'patch.diff')
             out.append(('patch', 'seed %s' % sid, patch, ''))
+    md = os.path.join(VERIF, 'mutants', pid)
+    for name in sorted(os.listdir(md)) if os.path.isdir(md) else []:
+        mp = os.path.join(md, name, 'meta.json')
+        if not os.path.exists(mp):
+            continue
+        try:
+            meta = json.load(open(mp))
+        except ValueError:
+            continue
+        if meta.get('breaking') and pid in (meta.get('caught_by') or {}):
+            out.append(('patch', 'mutant %s' % name, os.path.join(md, name, 'patch.diff'), ''))
     rd = os.path.join(VERIF, 'regress')
     for sha in sorted(os.listdir(rd)) if os.path.isdir(rd) else []:
         mp = os.path.join(rd, sha, 'meta.json')
